@@ -92,9 +92,11 @@ type FOScenario struct {
 	// BackendJitter: 0 library default (0.1), -1 disabled.
 	BackendJitter float64  `json:"backend_jitter,omitempty"`
 	Keys          []string `json:"keys"`
-	Init          []FOInit `json:"init,omitempty"`
-	Clients       [][]FOOp `json:"clients"`
-	Faults        FOFaults `json:"faults,omitempty"`
+	// KeyBytes, if set, replaces Keys (binary keys, e.g. constructed hash collisions).
+	KeyBytes [][]byte `json:"key_bytes,omitempty"`
+	Init     []FOInit `json:"init,omitempty"`
+	Clients  [][]FOOp `json:"clients"`
+	Faults   FOFaults `json:"faults,omitempty"`
 	// Followup makes the root run the C04 re-buildability phase after quiescence.
 	Followup bool `json:"followup,omitempty"`
 }
@@ -438,10 +440,12 @@ func (l simLogger) rec(level, msg string) {
 	zs.Yield("log." + level)
 	l.r.logs = append(l.r.logs, logRec{seq: l.r.e.s.NextSeq(), level: level, msg: msg})
 }
-func (l simLogger) Error(_ context.Context, msg string, _ ...interface{})     { l.rec("error", msg) }
-func (l simLogger) Debug(_ context.Context, msg string, _ ...interface{})     { l.rec("debug", msg) }
-func (l simLogger) Warn(_ context.Context, msg string, _ ...interface{})      { l.rec("warn", msg) }
-func (l simLogger) Important(_ context.Context, msg string, _ ...interface{}) { l.rec("important", msg) }
+func (l simLogger) Error(_ context.Context, msg string, _ ...interface{}) { l.rec("error", msg) }
+func (l simLogger) Debug(_ context.Context, msg string, _ ...interface{}) { l.rec("debug", msg) }
+func (l simLogger) Warn(_ context.Context, msg string, _ ...interface{})  { l.rec("warn", msg) }
+func (l simLogger) Important(_ context.Context, msg string, _ ...interface{}) {
+	l.rec("important", msg)
+}
 
 type simStats struct {
 	recs *[]statRec
@@ -844,6 +848,13 @@ func init() { engines["fo"] = runFO }
 
 func runFO(e *env) {
 	r := &foRun{e: e, sc: e.sc.FO}
+
+	if len(r.sc.KeyBytes) > 0 {
+		r.sc.Keys = nil
+		for _, k := range r.sc.KeyBytes {
+			r.sc.Keys = append(r.sc.Keys, string(k))
+		}
+	}
 
 	e.setup = true
 	r.construct()
